@@ -6,6 +6,7 @@ import os
 
 from vf.combi import digits
 from vf.core import HarnessError, Job, new_result, viol
+from vf.guard import SolverHang
 from vf.guard import call as gcall
 from vf.guard import too_many_hangs
 
@@ -175,7 +176,11 @@ def run_case(r, fname, fn, args, kw, n, edges):
             res[be] = ex
     py, rs, df = res["python"], res["rust"], res[None]
     if isinstance(py, Exception) or isinstance(rs, Exception):
-        if type(py) is not type(rs):
+        hung = [be for be, x in (("python", py), ("rust", rs)) if isinstance(x, SolverHang)]
+        if hung:  # a call that never returns gives no status and no answer, whichever back-ends do it
+            r["outcomes"][fname + ":nontermination"] += 1
+            r["violations"].append(viol(fname, "nontermination", wit, f"{fname}{tuple(args)} {kw}: backend {' and '.join(hung)} did not return within the fuel / time budget"))
+        elif type(py) is not type(rs):
             r["outcomes"][fname + ":exception_mismatch"] += 1
             r["violations"].append(viol(fname, "exception_differs", wit, f"{fname}{tuple(args)} {kw}: python -> {py!r}, rust -> {rs!r}"))
         else:
@@ -415,14 +420,15 @@ def _strip(kw):
 
 W = (0, 1, 2, 5)
 WN = (-2, -1, 0, 1, 2)
+WT = (1.0, -1.0, -1.0000000001, 3e-11, -3e-11)
 
 
 def jobs(tier, seed):
     js = []
 
-    def add(fname, n, L, weights):
+    def add(fname, n, L, weights, tag=None):
         nopt = n * n * (len(weights) if weights else 1)
-        tag = "" if not weights else ("_neg" if min(weights) < 0 else "_w" + "".join(map(str, weights)))
+        tag = tag or ("" if not weights else ("_neg" if min(weights) < 0 else "_w" + "".join(map(str, weights))))
         js.append(Job(f"{fname}_n{n}_len{L}{tag}", nopt**L, _chunk, (fname, n, L, weights), describe=f"all ordered edge lists of {L} edges on {n} nodes" + (f", weights {weights}" if weights else "")))
 
     js.append(Job("large_structured", len(large_cases()), _large_chunk, None, chunk=4, describe="the nine functions on the larger structured graphs of C11 and C13 (chains of 40, grids, complete graphs on 9-13 nodes, 70-node path and cycle) and two kruskal instances whose unions merge rank-2 trees through non-root members"))
@@ -437,6 +443,9 @@ def jobs(tier, seed):
         for L in (0, 1, 2, 3) if fname == "bellman_ford" else (1, 2, 3):
             add(fname, 3, L, WN)
         add(fname, 4, 2, (-1, 1, 2))
+    for fname in ("floyd_warshall", "bellman_ford"):  # cycles whose weight is a rounding error away from zero
+        for L in (1, 2, 3):
+            add(fname, 3, L, WT, tag="_near_zero_cycles")
     for fname in ("bfs_edges", "dfs_edges", "strongly_connected_components_edges", "topological_sort_edges", "pagerank_edges"):
         for L in (0, 1, 2, 3, 4):
             add(fname, 3, L, None)
